@@ -195,7 +195,9 @@ PROPS['C07'] = dict(
 # ---------------------------------------------------------------- C08 (h_write)
 def c08_passes(tier, sc):
     ntab = n(tier, 6, 36, sc)
-    return [Pass('prod', 'h_write.prod', 'C08', ntab * 32, chunk=1, stall_s=900)]
+    return [Pass('prod', 'h_write.prod', 'C08', ntab * 32, chunk=1, stall_s=900),
+            # one layer further down: the unmodified writer in a child process under `strace -e inject=` (failing / killing system calls on the real file)
+            Pass('syscall', 'h_write.prod', 'C08sys', n(tier, 12, 72, sc), chunk=1, stall_s=900)]
 
 
 PROPS['C08'] = dict(
@@ -204,9 +206,12 @@ PROPS['C08'] = dict(
                'then (a) the file image after EVERY operation prefix and after byte-granular cuts inside every fwrite is replayed by offset and given to read_fits '
                '(must be rejected or load equal), and (b) write_fits / writesplinefitstable is re-run with EVERY operation failing in turn (short or zero write with '
                'ENOSPC/EFBIG/EIO, transient and persistent; failing flush, close, seek, truncate, open, remove) and may report success only if the file reads back equal; '
-               'write_fits_mem gets every position of a failing realloc. Complete over the recorded operation sequence of each table explored.',
+               'write_fits_mem gets every position of a failing realloc. Complete over the recorded operation sequence of each table explored. '
+               'A second pass checks the same property one layer further down without any interposition: the unmodified writer runs in a child process under '
+               'strace -e inject=, each system call on the file (openat, write, lseek, close, unlink) fails in turn with ENOSPC/EIO (once or persistently) or the process is '
+               'killed on entering it - a real crash state on the real file system, read back by the parent (sampled per table).',
     level_note=NOTE_COMMON + '; crash states are modelled as prefixes of the stdio operation stream (stdio flushes in stream order and on seek)',
-    technique='fault injection by stdio interposition + crash-state replay from a recorded operation log',
+    technique='fault injection by stdio interposition + crash-state replay from a recorded operation log; system-call fault/kill injection with strace on the unmodified writer',
     targets=[T('h_write.cpp', 'prod')],
     passes=c08_passes,
     level='fault_enumeration',
@@ -214,7 +219,7 @@ PROPS['C08'] = dict(
          'crash states = all operation prefixes + block/card boundary +-1 and random byte cuts inside each fwrite; fault sequences = every operation index x applicable fault kinds; '
          'distinct_nontrivial counts distinct (table, state) and (table, op, fault) pairs',
     assumptions=ASSUME_COMMON + ['a crash leaves a prefix of the stdio operation stream on disk (no reordering below stdio)'],
-    require={'any': {'crash-states': 500, 'crash-states-rejected': 300, 'faults-fired': 100, 'writes-reporting-failure': 80, 'realloc-faults-injected': 5, 'out-of-order-writes': 1}},
+    require={'any': {'crash-states': 500, 'crash-states-rejected': 300, 'faults-fired': 100, 'writes-reporting-failure': 80, 'realloc-faults-injected': 5, 'out-of-order-writes': 1, 'syscall-level:faults-fired': 80, 'syscall-level:crash-states': 15, 'syscall-level:writes-reporting-failure': 30}},
 )
 
 
